@@ -136,3 +136,23 @@ Theorem C01_reduced_table_value_within_tolerance :
      <= 2 * atol + rtol * (Qabs (val T 0 e q d) + Qabs (val T 0 0 q d) + 1))%Q.
 Proof. exact reduce_sound_perm0. Qed.
 Print Assumptions C01_reduced_table_value_within_tolerance.
+
+(* which operators may be applied to argument-dependent operands: exactly the five the model has handlers for
+   (FactGen.v is regenerated from factorization.py; tr_fact also pins the text of the five handlers Fact.v mirrors);
+   any other operator over an argument-dependent operand is refused, by the code and by the model *)
+From FFCXGen Require Import FactGen.
+
+Theorem C01_handled_operators_are_the_modelled_ones :
+  handled_operators = ["Conditional"; "Conj"; "Division"; "Product"; "Sum"]%string.
+Proof. reflexivity. Qed.
+Print Assumptions C01_handled_operators_are_the_modelled_ones.
+
+Theorem C01_other_operators_only_over_argument_free_operands :
+  forall o a b m, (factorize (XOp1 o a) = Some m -> m = []) /\ (factorize (XOp2 o a b) = Some m -> m = []).
+Proof.
+  intros o a b m. split; simpl.
+  - destruct (factorize a) as [fa|]; simpl; [|discriminate]. destruct (is_nil fa); [|discriminate]. intros H; injection H as <-; reflexivity.
+  - destruct (factorize a) as [fa|]; simpl; [|discriminate]. destruct (factorize b) as [fb|]; simpl; [|discriminate].
+    destruct (is_nil fa && is_nil fb); [|discriminate]. intros H; injection H as <-; reflexivity.
+Qed.
+Print Assumptions C01_other_operators_only_over_argument_free_operands.
